@@ -1,5 +1,5 @@
 //! C20: endian wrappers.  case: type(0..7 = Le16 Le32 Le64 LeSize Be16 Be32 Be64 BeSize) v x
-//! obs: [bytes in guest memory after write_obj(wrapper)] to_native (w==x) (x==w) size align native_size native_align
+//! obs: [bytes in guest memory after write_obj(wrapper)] to_native (w==x) (x==w) size align native_size native_align routes_agree
 use crate::tok::{n, us};
 use crate::{Rng, Suite, Tier, Tok};
 use std::mem::{align_of, size_of};
@@ -22,8 +22,26 @@ macro_rules! run {
             let vs2 = vs.get_slice(16, size_of::<$W>()).unwrap();
             vs2.write_obj(w, 0).unwrap();
         }
+        // a table of wrappers stored element by element through an array reference (index >= 1 matters:
+        // element i must land at byte offset i * size_of::<W>()) and read back as raw bytes
+        let mut table = [0x5au8; 64];
+        let tptr = table.as_mut_ptr();
+        let mut table_ok = true;
+        {
+            let vt = unsafe { VolatileSlice::new(tptr, 64) };
+            let arr = vt.get_array_ref::<$W>(1, 3).unwrap();
+            arr.store(2, w);
+            arr.store(1, w);
+            table_ok &= arr.load(1).to_native() == v && arr.load(2).to_native() == v;
+            let mut out = [<$W>::from(0 as $U); 3];
+            arr.copy_to(&mut out[..]);
+            table_ok &= out[1].to_native() == v && out[2].to_native() == v;
+        }
+        let sz = size_of::<$W>();
         let bytes: Vec<u8> = backing[3..3 + size_of::<$W>()].to_vec();
         let bytes2: Vec<u8> = backing[16..16 + size_of::<$W>()].to_vec();
+        table_ok &= table[1 + sz..1 + 2 * sz] == bytes[..] && table[1 + 2 * sz..1 + 3 * sz] == bytes[..];
+        table_ok &= table[0] == 0x5a && table[1 + 3 * sz..].iter().all(|b| *b == 0x5a);
         let native: $U = w.to_native();
         let native2: $U = <$U>::from(w);
         let mut out = vec![
@@ -36,9 +54,8 @@ macro_rules! run {
             us(size_of::<$U>()),
             us(align_of::<$U>()),
         ];
-        if bytes != bytes2 || native != native2 {
-            out.push(n(0xbadu32)); // routes disagree: makes the line malformed for the model => reported
-        }
+        // do all storage routes agree (typed reference, element array at index >= 1, bulk array copy)?
+        out.push(Tok::b(bytes == bytes2 && native == native2 && table_ok));
         out
     }};
 }
